@@ -245,6 +245,7 @@ func runLLMNR(w *rt.World, res *hx.Result, realServer, realClient bool) *hx.Viol
 	}
 	timeoutKnob := hx.G(3) // real client: Timeout 2 s (default), 300 ms, 5 s
 	dbgDescribe := hx.G(2) == 0
+	nagOn := hx.G(4) == 0 && nResponders == 1
 	llJunk := [...]int{0, 0, 0, 2, 5, 9}[hx.G(6)]
 	llJunkShape := hx.G(3)
 	jitter := hx.G(3) == 0 // the responder handler answers after it returned, from a timer (RFC 4795 jitter), through the writer it was given
@@ -332,6 +333,7 @@ func runLLMNR(w *rt.World, res *hx.Result, realServer, realClient bool) *hx.Viol
 
 	// ---- harness responders (only when the server is not the real one)
 	wireID := map[string][]uint16{} // name -> ids seen on the wire (filled by responders / sniffers)
+	nagged := map[string]bool{}     // names whose query met the nagging responder
 	var respTasks []*rt.Task
 	stopResponders := false
 	var respSocks []*simnet.UDPConn
@@ -377,6 +379,22 @@ func runLLMNR(w *rt.World, res *hx.Result, realServer, realClient bool) *hx.Viol
 					}
 				}
 				if idx < 0 || !known[idx] {
+					continue
+				}
+				if nagOn && r == 0 && int(m.id)%3 == 0 && qtype != 28 && idx != maxNames-1 {
+					// a responder that keeps answering this query's id with messages about something else, every
+					// 300 ms for 6 s, and never sends the real answer: Query hands out the first of them (matching is
+					// by id) or ignores them and gives up when its timeout is over -- measured from the send, not from
+					// the last message it did not like
+					nagged[name] = true
+					rt.Probe(PNagging)
+					id, to := m.id, *src
+					rt.GoHarness("nagger", fmt.Sprintf("10.0.2.%d", r+1), func() {
+						for i := 0; i < 20 && !stopResponders; i++ {
+							c.WriteToUDP(dnsResponse(id, 0x8000, "stray.invalid", net.IP{192, 0, 2, 1}), &to)
+							rt.SleepUntil(rt.Now() + 300e6)
+						}
+					})
 					continue
 				}
 				switch (strayMode + int(m.id)) % 4 {
@@ -746,6 +764,10 @@ func runLLMNR(w *rt.World, res *hx.Result, realServer, realClient bool) *hx.Viol
 			if !q.done {
 				continue
 			}
+			if limit := int64(cl.Timeout) + 1e9; q.end-q.start > limit && w.Stats.TimeSkips == 0 && !closedEarly {
+				return &hx.Violation{Class: "client_mismatch", Key: "late_timeout",
+					Msg: fmt.Sprintf("Query(%s) returned %.3fs after it was called; its timeout is %.3fs and no task was ever stalled (nagged by mismatching responses: %v)", name, float64(q.end-q.start)/1e9, cl.Timeout.Seconds(), nagged[name])}
+			}
 			sent := wireID[wireKey(name, q.qtype)]
 			if q.err != nil {
 				el := q.end - q.start
@@ -760,7 +782,7 @@ func runLLMNR(w *rt.World, res *hx.Result, realServer, realClient bool) *hx.Viol
 						return &hx.Violation{Class: "client_mismatch", Key: "early_timeout",
 							Msg: fmt.Sprintf("Query(%s) reported a timeout after %.3fs, before its %.3fs timeout", name, float64(el)/1e9, cl.Timeout.Seconds())}
 					}
-					if !lossy && !closedEarly && !stoppedEarly && known[q.name] && q.cancel == 0 && len(sent) > 0 {
+					if !lossy && !closedEarly && !stoppedEarly && known[q.name] && q.cancel == 0 && len(sent) > 0 && !nagged[name] {
 						return &hx.Violation{Class: "client_mismatch", Key: "lost_response",
 							Msg: fmt.Sprintf("Query(%s) timed out although a response with its id %#04x was delivered to the client socket in time", name, sent[0])}
 					}
